@@ -149,5 +149,50 @@ func c10HistCases(r *Rand, tier string) []string {
 		el := []string{fmt.Sprint(r.Intn(900) + 1), Pick(r, vals) + fmt.Sprint(r.Intn(90)), Pick(r, vals)}
 		out = append(out, fmt.Sprintf("parf %d - %s %s %s", Pick(r, []int{4, 8, 16}), HexS(Pick(r, multi)), HexListS(el), keys))
 	}
+	// 5. dates `dateparse.ParseFormat` cannot detect but `time.Parse` accepts under the layout another date left behind
+	//    (finding fold-lenient, /repo 1dba502): constant and dynamic, behind binders and funcs-file functions – the
+	//    stage answers from its memory, so optimised and unoptimised must agree on every line of every history
+	lenient := [][2]string{{"oct 7,  1970", "oct 7, 1970"}, {"12  Feb 2006, 19:17", "12 Feb 2006, 19:17"}, {"7  oct 70", "7 oct 70"},
+		{"1  July 2013", "1 July 2013"}, {"2014-04-26 17:24:37.+23", "2014-04-26 17:24:37.123"}, {"May 8,  2009 5:57:51 PM", "May 8, 2009 5:57:51 PM"},
+		{"Tue, 11  Jul 2017 16:28:13 +0200", "Tue, 11 Jul 2017 16:28:13 +0200"}}
+	lenFile := "ts {time {0}}\ntb {buckettime {0} day}\ntn {ts {0}}\ntm {@map {0} \"{ts {0}}\"}\n"
+	for i := 0; i < 70*scale; i++ {
+		p := Pick(r, lenient)
+		bad, good := p[0], p[1]
+		q := func(x string) string { return "\"" + x + "\"" }
+		a, b := q(bad), q(good)
+		if r.Chance(3, 10) {
+			a, b = b, a
+		}
+		if r.Chance(2, 10) {
+			b = "{0}"
+		}
+		var t, file string
+		switch r.Intn(9) {
+		case 0:
+			t = fmt.Sprintf("{@map {@ %s %s} \"{time {0}}\"}", a, b)
+		case 1:
+			t = fmt.Sprintf("{@map {@ %s %s {1}} \"{buckettime {0} %s}\"}", a, b, Pick(r, []string{"day", "month", "hour"}))
+		case 2:
+			t = fmt.Sprintf("{@filter {@ %s %s} \"{gt {time {0}} -99999999999}\"}", a, b)
+		case 3:
+			t = fmt.Sprintf("{@reduce {@ x %s %s} \"{0}/{time {1}}\"}", a, b)
+		case 4:
+			file, t = lenFile, fmt.Sprintf("{ts %s}|{ts %s}", a, Pick(r, []string{"{0}", "{1}", b}))
+		case 5:
+			file, t = lenFile, fmt.Sprintf("{tb %s}|{tb %s}", a, Pick(r, []string{"{0}", "{1}", b}))
+		case 6:
+			file, t = lenFile, fmt.Sprintf("{tn %s}|{tn {0}}|{ts {1}}", a)
+		case 7:
+			file, t = lenFile, fmt.Sprintf("{tm {@ %s %s}}", a, b)
+		default:
+			t = fmt.Sprintf("{time %s}|{time {0}}|{@map {@ %s} \"{time {0} cache}\"}", a, a)
+		}
+		var ctxs [][]string
+		for k, n := 0, r.Range(2, 4); k < n; k++ {
+			ctxs = append(ctxs, []string{Pick(r, []string{good, bad, "", "2020-01-01", Pick(r, lenient)[1]}), Pick(r, []string{good, bad, ""})})
+		}
+		out = append(out, mkHist(file, t, ctxs))
+	}
 	return out
 }
